@@ -2375,6 +2375,10 @@ class Restart(APCI):
         """Parse/deserialize from KNX/IP raw data."""
         if len(raw) != 2:
             raise ConversionError(f"Invalid length for A_Restart in CEMI: {raw.hex()}")
+        # response bit and restart type are not reserved: a basic restart
+        # request carries neither; bits 4..1 are reserved and ignored
+        if raw[1] & 0b100001:
+            raise ConversionError(f"Invalid A_Restart in CEMI: {raw.hex()}")
         return cls()
 
     def to_knx(self) -> bytearray:
